@@ -1,73 +1,116 @@
-"""Driver: verify the contracts of the given sidecar modules; print / return JSON results."""
+"""Driver: verify the contracts of the given sidecar modules; print / return JSON results.
+
+One worker process per function under contract generates the verification conditions (SMT-LIB2 text) from the
+real source; the solver portfolio then discharges every obligation in its own subprocess.
+"""
 import importlib
 import json
+import multiprocessing as mp
+import os
 import sys
 import time
 
 from . import contract as C, engine, solve
 
+_MODS = []
 
-def verify_all(module_names, select=None, timeout=10, verbose=False):
-    for m in module_names:
+
+def _gen(key):
+    for m in _MODS:
         importlib.import_module(m)
-    results = []
-    items = []
-    verifiers = {}
+    con = C.REGISTRY[key]
     t0 = time.time()
-    for key, con in list(C.REGISTRY.items()):
-        if not con.verify:
-            continue
-        if select and not select(con):
-            continue
-        v = engine.verify_contract(con)
-        verifiers[key] = v
-        if v.status != "ok":
-            continue
+    v = engine.verify_contract(con)
+    rec = {
+        "key": key,
+        "function": f"{con.relpath}:{con.qualname}" + (f"#{con.variant}" if con.variant else ""),
+        "props": con.props, "sha256": v.ext.sha256, "lineno": v.ext.lineno,
+        "status": v.status, "reason": v.reason, "paths": v.paths,
+        "assumptions": sorted(v.assumptions), "opaque": sorted(v.opaque_used), "inlined": sorted(v.inlined),
+        "callee_contracts": sorted(v.used_contracts), "gen_s": 0.0, "obligs": [],
+        "requires": con.requires, "ensures": con.ensures, "modifies": con.modifies,
+    }
+    if v.status == "ok":
         ax = v.axioms()
+        seen = {}
         for ob in v.obligs:
-            items.append(((key, ob.oid), v.smt_text(ob, ax)))
+            # obligation ids must be unique and stable
+            n = seen.get(ob.oid, 0)
+            seen[ob.oid] = n + 1
+            oid = ob.oid if n == 0 else f"{ob.oid}~{n}"
+            rec["obligs"].append({
+                "id": oid, "kind": ob.kind, "text": ob.text, "line": ob.lineno, "expect": ob.expect,
+                "after_havoc": bool(ob.after_havoc), "smt": v.smt_text(ob, ax),
+            })
+    rec["gen_s"] = round(time.time() - t0, 2)
+    return rec
+
+
+def verify_all(module_names, prop=None, timeout=10, workers=None, only=None):
+    global _MODS
+    _MODS = list(module_names)
+    for m in _MODS:
+        importlib.import_module(m)
+    keys = [k for k, con in C.REGISTRY.items() if con.verify and (prop is None or prop in con.props) and (only is None or only in k[1])]
+    t0 = time.time()
+    workers = workers or min(16, os.cpu_count() or 4)
+    if len(keys) > 1 and workers > 1:
+        ctx = mp.get_context("fork")
+        with ctx.Pool(min(workers, len(keys))) as pool:
+            recs = pool.map(_gen, keys, 1)
+    else:
+        recs = [_gen(k) for k in keys]
     gen_s = time.time() - t0
-    solved = solve.solve_many(items, timeout=timeout)
-    for key, v in verifiers.items():
-        con = v.con
-        rec = {
-            "function": f"{con.relpath}:{con.qualname}", "props": con.props, "sha256": v.ext.sha256, "lineno": v.ext.lineno,
-            "status": v.status, "reason": v.reason, "paths": v.paths, "obligations": [],
-            "assumptions": sorted(v.assumptions), "opaque": sorted(v.opaque_used), "inlined": sorted(v.inlined),
-            "callee_contracts": sorted(v.used_contracts),
-        }
-        for ob in (v.obligs if v.status == 'ok' else []):
-            r = solved[(key, ob.oid)]
-            if ob.expect == "unsat":
+    items, guards = [], []
+    for rec in recs:
+        for ob in rec["obligs"]:
+            (guards if ob["expect"] == "sat" else items).append(((rec["function"], ob["id"]), ob["smt"]))
+    solved = solve.solve_many(items, timeout=timeout, workers=workers)
+    solved.update(solve.solve_many(guards, timeout=min(timeout, 5), workers=workers))
+    results = []
+    for rec in recs:
+        out = {k: v for k, v in rec.items() if k not in ("obligs", "key")}
+        out["obligations"] = []
+        for ob in rec["obligs"]:
+            r = solved[(rec["function"], ob["id"])]
+            if ob["expect"] == "unsat":
                 verdict = {"unsat": "discharged", "sat": "refuted"}.get(r["status"], "undecided")
             else:
-                verdict = {"sat": "discharged", "unsat": "refuted"}.get(r["status"], "undecided")
-            rec["obligations"].append({
-                "id": ob.oid, "kind": ob.kind, "text": ob.text, "line": ob.lineno, "verdict": verdict, "solver": r["solver"],
-                "time": round(r["time"], 3), "attempts": r["attempts"], "after_havoc": ob.after_havoc,
-                "model": r["model"][:4000] if verdict == "refuted" and ob.expect == "unsat" else "",
+                verdict = {"sat": "discharged", "unsat": "vacuous"}.get(r["status"], "guard-undecided")
+            out["obligations"].append({
+                "id": ob["id"], "kind": ob["kind"], "text": ob["text"], "line": ob["line"], "verdict": verdict,
+                "solver": r["solver"], "time": round(r["time"], 3), "attempts": r["attempts"], "after_havoc": ob["after_havoc"],
+                "model": r["model"][:6000] if verdict == "refuted" else "",
             })
-        results.append(rec)
-    return {"generation_s": round(gen_s, 2), "wall_s": round(time.time() - t0, 2), "functions": results}
+        results.append(out)
+    return {"generation_s": round(gen_s, 2), "wall_s": round(time.time() - t0, 2), "functions": results,
+            "solver_time_s": round(sum(r["time"] for r in solved.values()), 2)}
 
 
 def main():
-    mods = [a for a in sys.argv[1:] if not a.startswith("-")]
-    res = verify_all(mods, timeout=10)
-    bad = 0
+    import argparse
+
+    ap = argparse.ArgumentParser()
+    ap.add_argument("mods", nargs="+")
+    ap.add_argument("--prop")
+    ap.add_argument("--only")
+    ap.add_argument("--timeout", type=int, default=10)
+    ap.add_argument("--json")
+    ap.add_argument("-m", action="store_true")
+    a = ap.parse_args()
+    res = verify_all(a.mods, prop=a.prop, timeout=a.timeout, only=a.only)
     for f in res["functions"]:
         obs = f["obligations"]
         d = sum(o["verdict"] == "discharged" for o in obs)
-        print(f"{f['function']}: {f['status']} {f['reason']} paths={f['paths']} obligations={len(obs)} discharged={d}")
+        print(f"{f['function']}: {f['status']} {f['reason']} paths={f['paths']} obligations={len(obs)} discharged={d} gen={f['gen_s']}s")
         for o in obs:
             if o["verdict"] != "discharged":
-                bad += 1
                 print("   ", o["verdict"].upper(), o["id"], "|", o["text"], o["attempts"])
-                if "-m" in sys.argv and o["model"]:
+                if a.m and o["model"]:
                     print(o["model"][:1500])
-    print("gen", res["generation_s"], "wall", res["wall_s"])
-    if "--json" in sys.argv:
-        json.dump(res, open("/dev/stdout", "w"), indent=1)
+    print("gen", res["generation_s"], "wall", res["wall_s"], "solver", res["solver_time_s"])
+    if a.json:
+        json.dump(res, open(a.json, "w"), indent=1)
 
 
 if __name__ == "__main__":
